@@ -259,6 +259,11 @@ def parse_into_datetime(
                 # serialized); say so, so that it compares with other
                 # timestamps.
                 ts = pytz.utc.localize(ts)
+            else:
+                # Precision is adjusted below on the UTC instant: the
+                # fraction of a local reading differs from it when the UTC
+                # offset has a sub-second part.
+                ts = ts.astimezone(pytz.utc)
         else:
             # Add a time component
             ts = dt.datetime.combine(value, dt.time(0, 0, tzinfo=pytz.utc))
